@@ -68,4 +68,46 @@ let register () =
              output_string oc s; close_out oc;
              "OK " ^ string_of_int (Stdlib.String.length s)
          | None -> "NONE")
+    | _ -> "ERR args");
+  (* c05.untar <events file> <no_same_owner 0|1> <no_same_permissions 0|1> <uid> <gid> <umask> <output file>
+     -> OK <n> | NONE | DECODE-ERR | UNTAR-ERR ; the predicted listing goes to the output file, one line per object:
+        path kind perm uid gid mtime|NOW xattrs size-or-rdev-or-target-hex   (walk order of the model's directories) *)
+  Drv.register "c05.untar" (fun args -> match args with
+    | [inp; nso; nsp; uid; gid; umask; outp] ->
+        (match TarModel.tar_bytes (events_of_file inp) with
+         | None -> "NONE"
+         | Some b ->
+           (match Archive.decode_archive b with
+            | Format.Ok (ns, _) ->
+                let pr = { FSMeta.p_uid = n_of_string uid; p_gid = n_of_string gid; p_umask = n_of_string umask } in
+                let o = { FSMeta.no_same_owner = (nso = "1"); no_same_permissions = (nsp = "1") } in
+                (match FSMeta.untar pr o ns (FSMeta.empty_root pr) with
+                 | FSMeta.FOk root ->
+                     let buf = Buffer.create 65536 in
+                     let count = ref 0 in
+                     let xs l = if l = [] then "-" else
+                       Stdlib.String.concat "," (Stdlib.List.map (fun (k, v) ->
+                         (let h = hex_of_bytes k in if h = "-" then "" else h) ^ "=" ^ (let h = hex_of_bytes v in if h = "-" then "" else h)) l) in
+                     let line path kind (m : FSMeta.fmeta) extra =
+                       incr count;
+                       Buffer.add_string buf (Stdlib.String.concat " " [
+                         (if path = [] then "-" else Stdlib.String.concat "/" (Stdlib.List.rev_map hex_of_bytes path));
+                         kind; string_of_n m.FSMeta.fm_perm; string_of_n m.FSMeta.fm_uid; string_of_n m.FSMeta.fm_gid;
+                         (match m.FSMeta.fm_mtime with FSMeta.Stamp t -> string_of_n t | FSMeta.Now -> "NOW");
+                         xs m.FSMeta.fm_xattrs; extra ]);
+                       Buffer.add_char buf '\n' in
+                     let rec go rpath (n : FSMeta.fnode) = match n with
+                       | FSMeta.FDir (m, ents) ->
+                           line rpath "dir" m (string_of_int (Stdlib.List.length ents));
+                           Stdlib.List.iter (fun (nm, c) -> go (nm :: rpath) c) ents
+                       | FSMeta.FFile (m, d) -> line rpath "file" m (string_of_int (Stdlib.List.length d) ^ ":" ^ hex_of_string (Sha256.digest (string_of_bytes d)))
+                       | FSMeta.FLink (m, t) -> line rpath "link" m (hex_of_bytes t)
+                       | FSMeta.FDev (m, chr, r) -> line rpath (if chr then "chr" else "blk") m (string_of_n r) in
+                     go [] root;
+                     let oc = open_out_bin outp in
+                     Buffer.output_buffer oc buf; close_out oc;
+                     "OK " ^ string_of_int !count
+                 | FSMeta.FErr _ -> "UNTAR-ERR")
+            | _ -> "DECODE-ERR"))
     | _ -> "ERR args")
+
